@@ -209,7 +209,7 @@ static RunRes runIsolated(const std::string& reader, const std::string& data, bo
         struct rlimit rl; rl.rlim_cur = rl.rlim_max = 0; setrlimit(RLIMIT_CORE, &rl);
         rl.rlim_cur = LIM.stackBytes; rl.rlim_max = RLIM_INFINITY; setrlimit(RLIMIT_STACK, &rl);
         rl.rlim_cur = (rlim_t) std::ceil(cpuLim); rl.rlim_max = rl.rlim_cur + 2; setrlimit(RLIMIT_CPU, &rl);
-        std::signal(SIGXCPU, cpuHandler); std::signal(SIGALRM, cpuHandler); alarm((unsigned) (3 * cpuLim + 5));
+        std::signal(SIGXCPU, cpuHandler); std::signal(SIGALRM, cpuHandler); alarm((unsigned) (10 * cpuLim + 30));
         char top; g_stackTop = &top;
 #if C11_ASAN
         g_memBase = __sanitizer_get_current_allocated_bytes(); g_memLimit = LIM.memBytes;
@@ -269,7 +269,7 @@ static RunRes runIsolated(const std::string& reader, const std::string& data, bo
         else if (line.rfind("L ", 0) == 0) haveL = true; } }
     R.rssGrowKB = std::max(0L, (long) ru.ru_maxrss - rss0);
     if (WIFEXITED(st) && WEXITSTATUS(st) == 0) {
-        if (haveL) { R.cls = "leak"; R.detail = readFile(g_errFile).substr(0, 3000); return R; }
+        if (haveL) { R.cls = "leak"; R.dump = readFile(g_errFile).substr(0, 4000); std::string fr; (void) asanClass(R.dump, fr); R.detail = fr; return R; }
         if (haveK && haveP) { R.cls = "ok"; return R; }
         if (haveE) { R.cls = "err"; R.detail = eCls; return R; }
         R.cls = "crash"; R.detail = "no-result -"; return R;
@@ -284,7 +284,7 @@ static RunRes runIsolated(const std::string& reader, const std::string& data, bo
         if (c == 79 || c == 80) { R.cls = "crash"; R.detail = (c == 79 ? "segv" : "sigbus") + phase + " -"; return R; }
         std::string rep = readFile(g_errFile), frame; std::string cls = asanClass(rep, frame);
         if (cls == "allocation-size-too-big" || cls == "out-of-memory" || cls == "calloc-overflow" || cls == "allocator" || cls == "requested") { R.cls = "oom"; R.detail = phase; return R; }
-        if (cls == "leak") { R.cls = "leak"; R.detail = rep.substr(0, 3000); return R; }
+        if (cls == "leak") { R.cls = "leak"; R.dump = rep.substr(0, 4000); R.detail = frame; return R; }
         R.cls = "crash"; R.detail = (cls == "unknown" ? "exit-" + std::to_string(c) : cls) + phase + " " + frame; R.dump = rep.substr(0, 4000); return R;
     }
     int sig = WTERMSIG(st); R.afterRead = haveR;
@@ -299,6 +299,7 @@ static std::string expectLine(const RunRes& r, char flag) {
     if (r.cls == "ok") return flag == 'M' ? "ok " + r.dump : "nomodel";
     if (r.cls == "err") return flag == 'M' ? "err" : "nomodel";
     if (r.cls == "crash") return "crash " + r.detail;
+    if (r.cls == "leak") return "leak " + (r.detail.empty() ? std::string("-") : r.detail);
     return r.cls + r.detail;
 }
 
@@ -733,7 +734,7 @@ int main(int argc, char** argv) {
         while (std::getline(in, line)) { if (line.empty()) continue; auto t = splitToks(line); std::string data;
             if (t.size() < 4 || !fromHex(t[3], data)) { std::cout << "bad-case\n"; continue; }
             RunRes res = runIsolated(t[0], data, t[1][0] == 'M'); std::cout << expectLine(res, t[1][0]) << "\n";
-            if (std::getenv("C11_VERBOSE")) std::cerr << "class=" << res.cls << " detail=" << res.detail << " post=" << res.post << " cpu_read=" << res.cpuRead << " rss_grow_kb=" << res.rssGrowKB << " cpu=" << res.cpu << "\n" << (res.cls == "crash" || res.cls == "leak" ? res.dump + res.detail : "") << "\n"; }
+            if (std::getenv("C11_VERBOSE")) std::cerr << "class=" << res.cls << " detail=" << res.detail << " post=" << res.post << " cpu_read=" << res.cpuRead << " rss_grow_kb=" << res.rssGrowKB << " cpu=" << res.cpu << "\n" << (res.cls == "crash" || res.cls == "leak" ? res.dump : "") << "\n"; }
     } else if ((mode == "probe" || mode == "gen") && argc >= 4) {
         std::string reader, s; long p = std::atol(argv[3]);
         if (!family(argv[2], p, reader, s)) { std::fprintf(stderr, "unknown family\n"); rc = 2; }
